@@ -23,18 +23,21 @@ import (
 
 // persistGate holds the persister inside one Persist of its own job.
 type persistGate struct {
-	kind    string // index.ItemKindSegment or index.ItemKindSnapshot
-	armed   bool
-	zeroAck bool // hold only a Persist of a job whose grab took no waiting acknowledgement (no caller blocked)
-	held    chan struct{} // closed when the persister has arrived
-	release chan struct{} // closed to let it go on
+	kind     string // index.ItemKindSegment or index.ItemKindSnapshot
+	armed    bool
+	merge    bool          // hold a merge's segment Persist (default: a Persist of the persister's own job)
+	goid     uint64        // if non-zero: only on this goroutine
+	bindGrab bool          // goid is set by the next grab (the persister's goroutine)
+	zeroAck  bool          // hold only a Persist of a job whose grab took no waiting acknowledgement (no caller blocked)
+	held     chan struct{} // closed when the persister has arrived
+	release  chan struct{} // closed to let it go on
 }
 
 // gateWait is called by the recording Directory after the `…begin` record, before the real Persist.
 func (c *caseRun) gateWait(kind string, isMerge bool) {
 	c.mu.Lock()
 	g := c.gate
-	if g == nil || !g.armed || isMerge || kind != g.kind || (g.zeroAck && c.lastGrabX != 0) {
+	if g == nil || !g.armed || isMerge != g.merge || kind != g.kind || (g.zeroAck && c.lastGrabX != 0) || (g.goid != 0 && g.goid != goid()) {
 		c.mu.Unlock()
 		return
 	}
@@ -114,7 +117,7 @@ func (c *caseRun) closeRace(gateKind string, specs []batchSpec, st *hlib.Stats) 
 			// did not return: NOT acknowledged (the caller is abandoned; on the unchanged tree it blocks for ever)
 			st.Count("closerace:blocked")
 			c.mu.Lock()
-			c.nblocked++
+			c.abandonHandlesLocked() // the caller left blocked pins a root of the closed writer: those handles are out of the balance
 			c.mu.Unlock()
 			c.record(fmt.Sprintf("blocked %d", specs[i].tok))
 		}
